@@ -52,20 +52,51 @@ let rec parse_dump () : bucket =
         else (key, Sub (parse_dump ())))
   | t -> failwith ("bad dump token " ^ t)
 
-(* the names of a phase's checker when it is a plain MapFieldChecker (its ToSlice is observed) *)
+(* the names of a phase's checker when it is a plain MapFieldChecker (its ToSlice is observed).
+   A checker is given as a representation (Codec/CheckerRepr.v):
+     *                          the nil interface
+     c <n> <name>{n}            an allocated boltz.MapFieldChecker
+     r <repr> <n> <name>{n}     the same selection handed over as another Go value: mn nil MapFieldChecker,
+                                ma allocated MapFieldChecker, pn / sn / f0 typed nil pointer / slice / func of a
+                                harness type answering false, anything else a non-nil value of a harness type
+     o <n> (<from> <to>){n} c   WithFieldOverrides / NewMappedFieldChecker over c
+     on c                       the same with a nil mappings map *)
 let checker_names : str list option ref = ref None
-let rec parse_checker_inner () : checker =
+let rec parse_repr () : checker_repr =
   match next () with
-  | "*" -> None
-  | "c" -> let k = next_int () in let names = n_times k next_bytes in checker_names := Some names; Some (map_field_checker names)
+  | "*" -> RNilInterface
+  | "c" -> let k = next_int () in let names = n_times k next_bytes in checker_names := Some names; RMap names
+  | "r" ->
+      let repr = next () in
+      let k = next_int () in
+      let names = n_times k next_bytes in
+      (match repr with
+       | "mn" -> if names <> [] then failwith "a nil map holds no names"; checker_names := Some []; RNilMap
+       | "ma" -> checker_names := Some names; RMap names
+       | "pn" | "sn" | "f0" ->
+           if names <> [] then failwith "a nil value holds no names";
+           checker_names := None; RCustom (true, map_field_checker [])
+       | _ -> checker_names := None; RCustom (false, map_field_checker names))
   | "o" ->
       let k = next_int () in
       let mappings = n_times k (fun () -> let a = next_bytes () in let b = next_bytes () in (a, b)) in
-      let inner = parse_checker_inner () in
+      let inner = parse_repr () in
       checker_names := None;
-      with_field_overrides inner mappings
+      RMapped (inner, Some mappings)
+  | "on" ->
+      let inner = parse_repr () in
+      checker_names := None;
+      RMapped (inner, None)
   | t -> failwith ("bad checker token " ^ t)
-let parse_checker () : checker = checker_names := None; parse_checker_inner ()
+let parse_checker () : checker =
+  checker_names := None;
+  let r = parse_repr () in
+  let c = repr_checker r in
+  (* the direct reading of the Go values and the checker agree (theorem checker_repr_selection) *)
+  (match !checker_names with
+   | Some names -> List.iter (fun n -> if proceed c n <> repr_selects r n then failwith "repr_selects differs") names
+   | None -> ());
+  c
 let toslice_tok () : string list =
   match !checker_names with
   | Some names -> let l = names_set names [] in ["ts:" ^ String.concat ":" (string_of_int (List.length l) :: List.map hex_of_bytes l)]
@@ -255,7 +286,7 @@ let run_scenario () =
 
 (* X <nlevels> (<plen> <key>{plen}){nlevels} <id> <dump> <nphases> phase{n} R <n> (<level> <name>){n}
    phase := P <create> <checker> <nstmts> stmt{n}
-   stmt  := s <slot> <op> | g <slot> | w <slot> <n> (<from> <to>){n}
+   stmt  := s <slot> <op> | g <slot> | w <slot> <n> (<from> <to>){n} | wn <slot>
    One persist per phase through the store at level 0 of the chain (Codec/Persist.v); <dump> is the
    root store's entity bucket.  Ops as in S, plus the PersistContext-only calls
    links <name> <n> <id>{n} | isc <name> <on-create> <on-update> | id <name> | tx <name>. *)
@@ -279,6 +310,7 @@ let parse_stmt () : pstmt * opkind =
       let k = next_int () in
       let m = n_times k (fun () -> let a = next_bytes () in let b = next_bytes () in (a, b)) in
       (POverride (slot, m), Plain)
+  | "wn" -> (POverride (nat_of_int (next_int ()), []), Plain)    (* WithFieldOverrides(nil) *)
   | t -> failwith ("bad statement " ^ t)
 
 let run_persist_scenario () =
